@@ -120,39 +120,63 @@ class Overlay:
                     f.write('\n' + btxt + '\n')
                 self.inserted.append((append_to, len(body), 'harness module from ' + os.path.basename(hf)))
 
-    def run(self, harnesses, features=None, extra=None, timeout=3600, jobs=None, playback=False):
-        env = dict(os.environ)
-        env['CARGO_NET_OFFLINE'] = 'true'
-        env['CARGO_TARGET_DIR'] = target_dir(self.verif_root)
+    def _cmd(self, harnesses, features, extra, playback):
         cmd = ['cargo', 'kani', '-Z', 'function-contracts', '-Z', 'stubbing']
         if features:
             cmd += ['--features', features]
         for h in harnesses:
             cmd += ['--harness', h]
-        if jobs and jobs > 1 and len(harnesses) > 1:
-            cmd += ['-j', str(jobs), '--output-format', 'terse']
         if playback:
             cmd += ['-Z', 'concrete-playback', '--concrete-playback=print']
         if extra:
             cmd += extra
+        return cmd
+
+    def _exec(self, cmd, timeout):
+        env = dict(os.environ)
+        env['CARGO_NET_OFFLINE'] = 'true'
+        env['CARGO_TARGET_DIR'] = target_dir(self.verif_root)
         t0 = time.time()
         try:
-            p = subprocess.run(cmd, cwd=self.dir, env=env, capture_output=True, text=True, timeout=timeout)
-            out, code, status = p.stdout + '\n' + p.stderr, p.returncode, 'ran'
-        except subprocess.TimeoutExpired as e:
-            out = ((e.stdout or b'').decode(errors='replace') if isinstance(e.stdout, bytes) else (e.stdout or '')) + \
-                  ((e.stderr or b'').decode(errors='replace') if isinstance(e.stderr, bytes) else (e.stderr or ''))
-            code, status = None, 'timeout'
-            subprocess.run(['pkill', '-9', '-x', 'cbmc'], check=False)
-            subprocess.run(['pkill', '-9', '-x', 'kani-driver'], check=False)
-        return {'cmd': ' '.join(cmd), 'out': out, 'exit': code, 'status': status, 'wall_s': time.time() - t0}
+            p = subprocess.Popen(cmd, cwd=self.dir, env=env, stdout=subprocess.PIPE, stderr=subprocess.STDOUT,
+                                 text=True, start_new_session=True)
+            try:
+                out, _ = p.communicate(timeout=timeout)
+                code, status = p.returncode, 'ran'
+            except subprocess.TimeoutExpired:
+                import signal
+                try:
+                    os.killpg(p.pid, signal.SIGKILL)
+                except Exception:
+                    pass
+                out, _ = p.communicate()
+                code, status = None, 'timeout'
+        except OSError as e:
+            out, code, status = str(e), None, 'error'
+        return {'cmd': ' '.join(cmd), 'out': out or '', 'exit': code, 'status': status, 'wall_s': time.time() - t0}
+
+    def run(self, harnesses, features=None, extra=None, timeout=3600, jobs=None, playback=False):
+        """one `cargo kani` per harness after a shared codegen build; harness runs in parallel"""
+        if not jobs or jobs <= 1 or len(harnesses) <= 1:
+            return self._exec(self._cmd(harnesses, features, extra, playback), timeout)
+        # shared build first (so the parallel runs only verify)
+        b = self._exec(self._cmd(harnesses[:1], features, (extra or []) + ['--only-codegen'], False), timeout)
+        if b['exit'] != 0:
+            return b
+        import concurrent.futures as cf
+        with cf.ThreadPoolExecutor(max_workers=jobs) as ex:
+            rs = list(ex.map(lambda h: self._exec(self._cmd([h], features, extra, playback), timeout), harnesses))
+        status = 'ran' if all(r['status'] == 'ran' for r in rs) else 'timeout'
+        return {'cmd': ' ; '.join(r['cmd'] for r in rs), 'out': '\n'.join(r['out'] for r in rs),
+                'exit': max((r['exit'] or 0) for r in rs), 'status': status, 'wall_s': b['wall_s'] + max(r['wall_s'] for r in rs),
+                'timeouts': [h for h, r in zip(harnesses, rs) if r['status'] != 'ran']}
 
 
 def parse_kani(out, harnesses):
     """per harness: status (success|failure|missing|error), checks, failed checks[], time"""
     res = {h: {'status': 'missing', 'checks': 0, 'failed': [], 'time_s': None, 'unwind_fail': False} for h in harnesses}
     # split per harness
-    parts = re.split(r'(?m)^Checking harness ([\w:<>\s,]+?)\.\.\.\s*$', out)
+    parts = re.split(r'(?m)^(?:Thread \d+: )?Checking harness ([\w:<>\s,]+?)\.\.\.\s*$', out)
     # parts: [pre, name1, body1, name2, body2..]
     compile_error = None
     if re.search(r'(?m)^error(\[E\d+\])?:', parts[0]) and len(parts) == 1:
